@@ -67,7 +67,8 @@ CheckProbe(e, l) ==
       b   == e.cfg
       va  == A.view
       vb  == e.view
-      exp == Classify(e.fault, a, b)
+      exp == Classify(FALSE, e.fault, a, b)      \* the code today
+      expF == Classify(TRUE, e.fault, a, b)      \* with the proposed fix (either is accepted)
       D   == Diff(a, b)
       built == e.build_err = ""
       skipping == e.state \in {"equal", "meta-mismatch"}
@@ -93,12 +94,12 @@ CheckProbe(e, l) ==
               Reject(l, "meta-not-applied", [diff |-> D, view_fields |-> mleft]))
         /\ ((e.merged.err = "" /\ e.merged.state_after # "equal") =>
               Reject(l, "meta-not-converged", [state_after |-> e.merged.state_after])))
-  /\ ((~skipping /\ e.fault = "none" /\ D # {} /\ D \subseteq MutableFields /\ MutableChange(a, b)) =>
+  /\ ((~skipping /\ e.fault = "none" /\ D # {} /\ D \subseteq MutableFields /\ MutableChange(FALSE, a, b)) =>
         Reject(l, "reindex-for-metadata-only", [state |-> exp, diff |-> D]))
   /\ ((e.fault = "none" /\ ~skipping /\ e.state \notin {"option-mismatch", "content-mismatch", "missing"}) =>
         Reject(l, "unexpected-state", [state |-> exp]))
   \* ------------------------------------------------ conformance with IncrementalOps
-  /\ (e.state # exp => Reject(l, "conform:state", [state |-> exp, diff |-> D]))
+  /\ ((e.state # exp /\ e.state # expF) => Reject(l, "conform:state", [state |-> exp, fixed |-> expF, diff |-> D]))
   /\ (built # Buildable(b) => Reject(l, "conform:buildable", [buildable |-> Buildable(b)]))
   /\ ((built /\ ~ViewConforms(b, vb.docs)) => Reject(l, "conform:view", [model |-> ModelDocs(b)]))
 
